@@ -14,6 +14,8 @@ QUALS = [-0.1, 0.1, 0.3, 0.5, 0.7, 0.9, 1.0]
 # encoder delivers (DESIGN.md C06: measured 3.7 / 21 / 37 dB at q = -0.1 / 0.3 / 0.9); rises with the quality setting
 SNR_FLOOR = {-0.1: -4.0, 0.1: 2.0, 0.3: 10.0, 0.5: 14.0, 0.7: 18.0, 0.9: 24.0, 1.0: 24.0}
 PEAK_FACTOR = 4.0
+# one channel at a time (signal 5): the unchanged encoder returns every channel (LFE included) with >= 9 dB; a lost channel gives 0 dB
+ONE_AT_A_TIME_FLOOR = 4.0
 
 
 def f32bits(x):
@@ -43,6 +45,14 @@ def check(rep, tier, seed):
                 n = rng.range(20000, 36000)
                 specs.append("%d %d %d 0 %d %d %d %d" % (k, ch, rate, f32bits(q), n, sig, rng.below(1 << 40)))
                 metas.append({"case": k, "ch": ch, "rate": rate, "quality": q, "signal": sig, "samples": n})
+                k += 1
+        if ch >= 2:
+            # channel identity: one channel at a time carries a 100 Hz tone (inside the LFE band), the others are digitally silent;
+            # both sides of the coupled/uncoupled switch of the multichannel set-ups
+            for q in (0.3, 0.7):
+                n = rng.range(6000, 9000) * ch
+                specs.append("%d %d %d 0 %d %d %d %d" % (k, ch, rate, f32bits(q), n, 5, rng.below(1 << 40)))
+                metas.append({"case": k, "ch": ch, "rate": rate, "quality": q, "signal": 5, "samples": n})
                 k += 1
         if rng.below(2) == 0 or not quick:
             nom = rng.choice([48000, 64000, 96000]) * ch
@@ -93,9 +103,16 @@ def check(rep, tier, seed):
                     dist["max_peak_ratio"] = max(dist["max_peak_ratio"], pout / pin)
                     if pout > PEAK_FACTOR * pin:
                         bad.append({"kind": "peak of channel %d is %.3g, %.2f times the input peak" % (c, pout, pout / pin), "meta": m, "spec": specs[cur]})
+                if m["signal"] == 5:
+                    # every channel, the LFE included, must come back: its own slice reconstructed, nothing of another channel's
+                    snr5 = float(d["snr"])
+                    dist["min_snr_one_channel_at_a_time"] = min(dist.get("min_snr_one_channel_at_a_time", 1e9), snr5)
+                    if snr5 < ONE_AT_A_TIME_FLOOR:
+                        bad.append({"kind": "one channel at a time: channel %d comes back with SNR %.2f dB (silence or another channel's signal give <= 0 dB)" % (c, snr5),
+                                    "meta": m, "measurement": d, "spec": specs[cur]})
                 if lfe:
                     continue
-                if d["lag"] != "0":
+                if d["lag"] != "0" and m["signal"] != 5:      # (a 100 Hz tone has no timing resolution at +-1 sample)
                     bad.append({"kind": "channel %d: cross-correlation with the input peaks at lag %s, not 0 (delay/advance)" % (c, d["lag"]), "meta": m,
                                 "measurement": d, "spec": specs[cur]})
                 if int(d["src"]) != c:
